@@ -307,7 +307,11 @@ func c09Refs(tier string) *core.Space {
 				}
 				return o + " " + s
 			}}
-			return c09Explore(sc, 1, 300)
+			r := c09Explore(sc, 1, 300)
+			if r.Viol != nil && strings.Contains(c.text(), ":+") {
+				r.Viol.Sig += " (config uses the :+ operator)"
+			}
+			return r
 		},
 	}
 }
